@@ -857,6 +857,7 @@ struct Stats {
     restored_view_differs_from_current: AtomicU64,
     expected_failure_and_failed: AtomicU64,
     model_expected_success_but_failed: AtomicU64,
+    succeeded_without_new_operation: AtomicU64,
     failed_examples: Mutex<Vec<String>>,
     per_class: Mutex<BTreeMap<String, [u64; 4]>>, // runs, exit 0, judged, view really changed
 }
@@ -1074,11 +1075,33 @@ fn exec_step(env: &Env, dir: &Path, parent: Option<&StateData>, lit: &LitStep, s
             }
         } else if expect_failure {
             stats.expected_failure_and_failed.fetch_add(1, Ordering::Relaxed);
-        } else if expected.is_some() {
-            stats.model_expected_success_but_failed.fetch_add(1, Ordering::Relaxed);
-            let mut ex = stats.failed_examples.lock().unwrap();
-            if ex.len() < 8 {
-                ex.push(format!("jj {} (in {}): {}", lit.args.join(" "), lit.cwd, out.stderr.lines().next().unwrap_or("")));
+        } else if let Some((x, clause)) = &expected {
+            if ok {
+                // jj succeeded without writing an operation ("Nothing changed"): then the view the
+                // command should have produced must be the view it started from
+                stats.succeeded_without_new_operation.fetch_add(1, Ordering::Relaxed);
+                if let (Some(bv), Some(ev)) = (base.as_ref().and_then(|b| view_of(b)), view_of(x)) {
+                    let (diff, _) = compare_views(&ins, bv, ev, ws_name);
+                    if let Some((field, msg)) = diff {
+                        violations.push((
+                            format!("C41/{clause}/nothing-changed/{field}"),
+                            format!(
+                                "`jj {}` in {} succeeded without writing an operation, but the view differs from the view of operation {} it should equal: {msg}",
+                                lit.args.join(" "),
+                                lit.cwd,
+                                &x.hex()[..12]
+                            ),
+                        ));
+                    }
+                }
+            } else {
+                stats.model_expected_success_but_failed.fetch_add(1, Ordering::Relaxed);
+                let mut ex = stats.failed_examples.lock().unwrap();
+                if ex.len() < 8 {
+                    let errs: Vec<&str> =
+                        out.stderr.lines().filter(|l| l.starts_with("Error") || l.starts_with("Caused") || l.starts_with("Hint")).collect();
+                    ex.push(format!("jj {} (in {}, exit {:?}): {}", lit.args.join(" "), lit.cwd, out.code, errs.join(" | ")));
+                }
             }
         }
     }
@@ -1233,7 +1256,7 @@ fn main() {
     let wall_cap = std::env::var("VERIF_WALL_CAP_S")
         .ok()
         .and_then(|v| v.parse::<f64>().ok())
-        .unwrap_or(ctx.pick(35.0, 1500.0));
+        .unwrap_or(ctx.pick(25.0, 1200.0));
     let capped = AtomicBool::new(false);
     let skipped = AtomicU64::new(0);
     let start = Instant::now();
@@ -1283,7 +1306,8 @@ fn main() {
             lits.lock().unwrap().insert(h.to_vec(), vec![]);
             return Some(bfs::StepResult { key, actions: acts });
         }
-        if start.elapsed().as_secs_f64() > wall_cap {
+        // the gate histories are always executed, so that the determinism gate never depends on the cap
+        if start.elapsed().as_secs_f64() > wall_cap && !gate_histories.iter().any(|g| g.starts_with(h)) {
             capped.store(true, Ordering::Relaxed);
             skipped.fetch_add(1, Ordering::Relaxed);
             return None;
@@ -1418,6 +1442,7 @@ fn main() {
     extra.insert("op_revert_of_older_operation_not_judged".into(), json!(ld(&stats.unjudged_revert_of_older_op)));
     extra.insert("model_expected_failure_and_jj_failed".into(), json!(ld(&stats.expected_failure_and_failed)));
     extra.insert("model_expected_success_but_jj_failed".into(), json!(ld(&stats.model_expected_success_but_failed)));
+    extra.insert("undo_family_commands_that_succeeded_without_writing_an_operation".into(), json!(ld(&stats.succeeded_without_new_operation)));
     extra.insert("model_expected_success_but_jj_failed_examples".into(), json!(stats.failed_examples.lock().unwrap().clone()));
     extra.insert(
         "per_command_class".into(),
